@@ -51,7 +51,7 @@ BigIdx == Len(Docs) + 1
 BigParaIdx == Len(Docs) + 2
 VARIABLE case
 Next == UNCHANGED case
-Init == \E d \in 1..Len(AllDocs), ind \in {1, 4, 40}, fnl \in BOOLEAN, iel \in BOOLEAN, one \in {0, 8, 200},
+Init == \E d \in 1..Len(AllDocs), ind \in {1, 4, 40, 300}, fnl \in BOOLEAN, iel \in BOOLEAN, one \in {0, 8, 200},
            sp \in BOOLEAN, sf \in BOOLEAN, fmt \in {"none", "identity", "split"}, wp \in BOOLEAN, pk \in BOOLEAN :
           /\ (fnl => ind = 1)
           \* wp = FALSE: Deb822::wrap_and_sort without a paragraph rebuilder (paragraphs are only reordered and re-separated)
